@@ -39,7 +39,7 @@ func (c10) Gen(rng *rand.Rand, tier string, k int) *Case {
 	c := &Case{Family: "repo", Impl: []string{"memory", "file", "sql"}[rng.Intn(3)]}
 	c.Entity = "repository." + c.Impl
 	if c.Impl == "file" {
-		c.Mode = []string{"", "", "empty-file-A", "header-only-A", "dir-at-Z", "long-Z"}[rng.Intn(6)]
+		c.Mode = []string{"", "", "empty-file-A", "header-only-A", "dir-at-Z", "long-Z", "linked-A"}[rng.Intn(7)]
 	}
 	// three names per case: tickers with dots, names ending in the letters of the file suffix or
 	// in a dot, names that differ only in case, a blank inside
@@ -216,7 +216,7 @@ func (c10) Run(c *Case, st *Stats) []Violation {
 	add := func(kind, regime, detail string) {
 		vs = append(vs, Violation{Prop: "C10", Entity: c.Entity, Kind: kind, Regime: regime, Detail: fmt.Sprintf("%s history=%s: %s", c.Entity, histString(c.Ops), detail)})
 	}
-	dir := ""
+	dir, store := "", ""
 	dbName := ""
 	var sdb *simDB
 	clientDone := false
@@ -252,6 +252,15 @@ func (c10) Run(c *Case, st *Stats) []Violation {
 					preexisting["A"] = true
 				case "header-only-A":
 					os.WriteFile(filepath.Join(dir, "A.csv"), []byte("Date,Open,High,Low,Close,Volume\n"), 0o644)
+					preexisting["A"] = true
+				case "linked-A":
+					// the asset's file is kept elsewhere and linked into the base directory; every
+					// operation follows the link, so it is the empty file of the first mode
+					store = runDir()
+					os.WriteFile(filepath.Join(store, "kept.csv"), nil, 0o644)
+					if os.Symlink(filepath.Join(store, "kept.csv"), filepath.Join(dir, "A.csv")) != nil {
+						os.WriteFile(filepath.Join(dir, "A.csv"), nil, 0o644)
+					}
 					preexisting["A"] = true
 				case "dir-at-Z":
 					// the never-appended asset's file name is taken by a directory: an asset without
@@ -511,6 +520,9 @@ func (c10) Run(c *Case, st *Stats) []Violation {
 	})
 	if dir != "" {
 		os.RemoveAll(dir)
+		if store != "" {
+			os.RemoveAll(store)
+		}
 	}
 	if dbName != "" {
 		simDBsMu.Lock()
